@@ -18,27 +18,17 @@ import Tickit.Driver.Common
 namespace Tickit.Driver.ModesEngine
 open Tickit Tickit.Driver Tickit.Modes
 
-inductive Phase | none | running | paused | stopped | gone
-deriving DecidableEq, Repr
-
-/-- Ghost state of the specification. -/
-structure Logical where
-  alt    : Int := 0
-  vis    : Int := 1
-  mouse  : Int := 0
-  keypad : Int := 0
-  blink  : Option Int := none
-  shape  : Option Int := none
-  pen    : PenMap := PenMap.empty
-  doneSetup : Bool := false
-  useAlt : Int := 1
-
+/-- Driver state: the model's system, the specification's terminal (fed with the implementation's
+    bytes), its initial modes, the phase of the documented protocol, the ghost, and whether the
+    history is still inside the contract. -/
 structure St where
   sys   : Option Sys := none
-  phase : Phase := .none
+  gone  : Bool := false
+  phase : Phase := .running
   vt    : VT := {}
   vt0   : VModes := {}
-  lg    : Logical := {}
+  lg    : Ghost := {}
+  ua    : Int := 1
   inContract : Bool := true
 
 /-! ### printing / parsing -/
@@ -143,14 +133,12 @@ def parseImpl (line : String) : Option ImplObs := do
 
 /-! ### the executable specification -/
 
-def textOnly (bs : List Nat) : Bool := bs.all fun b => decide (32 ≤ b ∧ b ≠ 127)
-
 def b2s (b : Bool) : String := if b then "on" else "off"
 
 def clause (bad : Bool) (msg : String) : List String := if bad then [msg] else []
 
 /-- Terminal modes against the logical ones while running: every failing clause. -/
-def checkRunning (vt : VT) (lg : Logical) : List String :=
+def checkRunning (vt : VT) (lg : Ghost) : List String :=
   let m := vt.modes
   clause (m.altscreen ≠ decide (lg.alt ≠ 0)) s!"running: terminal altscreen is {b2s m.altscreen}, last set {lg.alt}" ++
   clause (m.cursorVisible ≠ decide (lg.vis ≠ 0)) s!"running: terminal cursor visibility is {b2s m.cursorVisible}, last set {lg.vis}" ++
@@ -176,7 +164,7 @@ def checkRestored (what : String) (vt : VT) (m0 : VModes) : List String :=
     | none => [])
 
 /-- Read-backs against the values last set. -/
-def checkGetctl (ctl : List String) (lg : Logical) : List String :=
+def checkGetctl (ctl : List String) (lg : Ghost) : List String :=
   match ctl with
   | [alt, vis, mouse, blink, shape, keypad, _, _, _, _, _] =>
     clause (alt ≠ toString lg.alt) s!"getctl altscreen reads {alt}, last set {lg.alt}" ++
@@ -187,64 +175,29 @@ def checkGetctl (ctl : List String) (lg : Logical) : List String :=
     clause (lg.shape.isSome ∧ shape ≠ showOpt lg.shape) s!"getctl cursorshape reads {shape}, last set {showOpt lg.shape}"
   | _ => ["malformed ctl read-back"]
 
-/-- Ghost update for a successful `ctl`; `false` = outside the contract. -/
-def Logical.set (lg : Logical) (c : Option Ctl) (v : Int) : Logical × Bool :=
-  match c with
-  | some .altscreen => ({ lg with alt := bool01 v }, true)
-  | some .cursorvis => ({ lg with vis := bool01 v }, true)
-  | some .keypadApp => ({ lg with keypad := bool01 v }, true)
-  | some .cursorblink => ({ lg with blink := some (bool01 v) }, true)
-  | some .mouse => if 0 ≤ v ∧ v ≤ 3 then ({ lg with mouse := v }, true) else (lg, false)
-  | some .cursorshape => ({ lg with shape := if 0 ≤ v ∧ v ≤ 3 then some v else none }, true)
-  | _ => (lg, true)
-
-/-- Every value of the pen has an exact encoding (otherwise the history leaves C12's contract: the
-    encoding of underline styles without `:` support, of `SMALL`, … is property C10's business). -/
-def penInDomain (p : PenMap) : Bool := Attr.all.all fun a => match p a with
-  | some v => inDomain a v
-  | none => true
-
-def logicalPen (isSet : Bool) (cur pen : PenMap) : PenMap :=
-  fun a => if isSet then some (pen.getD a) else (match pen a with
-    | some v => some v
-    | none => cur a)
-
-/-- Phase / contract / ghost transition for one operation, given the implementation's return value. -/
-def ghostStep (st : St) (op : Op) (implRet : String) (implUa : Option Int) : St :=
-  let okIn (ph : List Phase) := ph.contains st.phase
-  match op with
-  | .ctl c v =>
-    if !okIn [.running] then { st with inContract := false }
-    else if implRet = "1" then
-      let r := st.lg.set c v
-      { st with lg := r.1, inContract := st.inContract && r.2 }
-    else st
-  | .setstr _ payload => { st with inContract := st.inContract && okIn [.running] && textOnly payload }
-  | .print payload => { st with inContract := st.inContract && okIn [.running] && textOnly payload }
-  | .setpen p => { st with inContract := st.inContract && okIn [.running] && penInDomain p, lg := { st.lg with pen := logicalPen true st.lg.pen p } }
-  | .chpen p => { st with inContract := st.inContract && okIn [.running] && penInDomain p, lg := { st.lg with pen := logicalPen false st.lg.pen p } }
-  | .clear | .flush | .await | .replyMode .. | .replyShape .. | .replySgr .. =>
-    { st with inContract := st.inContract && okIn [.running] }
-  | .pause => { st with inContract := st.inContract && okIn [.running], phase := .paused }
-  | .resume => { st with inContract := st.inContract && okIn [.paused], phase := .running }
-  | .teardown => { st with inContract := st.inContract && okIn [.running, .paused], phase := .stopped }
-  | .usealt v => { st with lg := { st.lg with useAlt := implUa.getD v } }
-  | .tick nosetup =>
-    if !okIn [.running] then { st with inContract := false }
-    else if !st.lg.doneSetup && !nosetup then
-      let lg := st.lg
-      { st with lg := { lg with doneSetup := true, alt := if lg.useAlt ≠ 0 then 1 else lg.alt, vis := 0, mouse := 2, keypad := 1 } }
-    else st
+/-- Phase / contract / ghost transition for one operation, given the implementation's return value
+    and the toplevel's `use_altscreen` read-back before the operation. -/
+def ghostStep (st : St) (op : Op) (implRet : String) : St :=
+  let ret : Option Bool := if implRet = "1" then some true else if implRet = "0" then some false else none
+  let lg := st.lg.step op ret st.ua
+  match phaseNext st.phase op with
+  | some ph => { st with lg := lg, phase := ph, inContract := st.inContract && opOk op }
+  | none => { st with lg := lg, inContract := false }
 
 def specAfter (st : St) (what : String) (obs : ImplObs) : String :=
   if !st.inContract then ""
   else if st.vt.ps ≠ .ground then "output ends inside an escape sequence"
   else
     let g := if obs.ctl.isEmpty then [] else checkGetctl obs.ctl st.lg
-    let v := match st.phase with
-      | .running => checkRunning st.vt st.lg
-      | .paused | .stopped | .gone => checkRestored what st.vt st.vt0
-      | .none => []
+    let v := if st.gone then checkRestored what st.vt st.vt0 else match st.phase with
+      | .running =>
+        if modesShown st.vt.modes st.lg && penShown st.vt.attrs st.lg.pen then [] else
+        let c := checkRunning st.vt st.lg
+        if c.isEmpty then ["running: specification predicate false"] else c
+      | .paused | .stopped =>
+        if restoredOk st.vt st.vt0 then [] else
+        let c := checkRestored what st.vt st.vt0
+        if c.isEmpty then ["restored: specification predicate false"] else c
     "; ".intercalate (g ++ v)
 
 /-! ### the step function -/
@@ -256,7 +209,8 @@ def initialModes (opts : List String) : VModes :=
     | ["shape", v] => { m with cursorShape := v.toNat?.getD 0 }
     | _ => m
 
-def step (st : St) (ts : List String) (impl : String) : St × String × String :=
+def step (_st : St) (ts : List String) (impl : String) : St × String × String :=
+  let st := _st
   let cfg := Cfg.tree
   match ts with
   | "new" :: rest =>
@@ -264,20 +218,20 @@ def step (st : St) (ts : List String) (impl : String) : St × String × String :
     let kind := rest.head?.getD "term"
     let b := Sys.build (kind == "tickit" || kind == "tickitb")
     let m0 := initialModes rest
-    let st1 : St := { sys := some b.1, phase := .running, vt := { modes := m0 }, vt0 := m0 }
+    let st1 : St := { sys := some b.1, vt := { modes := m0 }, vt0 := m0, inContract := m0.standard }
     match parseImpl impl with
     | none => (st1, modelObs b.1 none b.2, "unparsable implementation observation")
     | some obs =>
-      let st2 := { st1 with vt := st1.vt.feed obs.out, lg := { st1.lg with useAlt := obs.ua.getD 1 } }
+      let st2 := { st1 with vt := st1.vt.feed obs.out, ua := obs.ua.getD 1 }
       (st2, modelObs b.1 none b.2, specAfter st2 "build" obs)
   | _ =>
-    match st.phase, st.sys with
-    | .none, _ | .gone, _ | _, none => (st, "dead", "")
-    | _, some sys =>
+    match st.sys with
+    | none => (st, "dead", "")
+    | some sys =>
       if ts = ["unref"] then
         let out := sys.destroy
         let m := s!"ret=- out={natsHex out} gone closed=1"
-        let st1 := { st with sys := none, phase := .gone }
+        let st1 := { st with sys := none, gone := true }
         match parseImpl impl with
         | none => (st1, m, "unparsable implementation observation")
         | some obs =>
@@ -294,8 +248,8 @@ def step (st : St) (ts : List String) (impl : String) : St × String × String :
           match parseImpl impl with
           | none => (st1, m, "unparsable implementation observation")
           | some obs =>
-            let st2 := ghostStep st1 op obs.ret obs.ua
-            let st3 := { st2 with vt := st2.vt.feed obs.out }
+            let st2 := ghostStep st1 op obs.ret
+            let st3 := { st2 with vt := st2.vt.feed obs.out, ua := obs.ua.getD st2.ua }
             (st3, m, specAfter st3 (ts.head?.getD "?") obs)
 
 def engine : Engine := { σ := St, init := {}, step := step }
